@@ -56,11 +56,14 @@ type PathResult struct {
 	Violations []Violation
 }
 
+var dumpN int
+
 // Engine is the per-worker interpreter state.
 type Engine struct {
 	P      *Program
 	tt     *TermTable
 	solver *Solver
+	alt    *Solver
 	// path state
 	pc        []*Term
 	prefix    []Decision
@@ -121,6 +124,7 @@ type Engine struct {
 	Input          string
 	Outputs        []string
 	fbCache        map[*Term]*Term
+	unwindViolation string
 }
 
 type Stats struct {
@@ -132,6 +136,9 @@ type Stats struct {
 	SolverUnsat  int
 	SolverUnknown int
 	SolverTime   time.Duration
+	AltCalls     int
+	AltDecided   int
+	CutUnknown   int
 	Asserts      map[string]*AssertSite
 	Fns          map[string]int
 	Intrinsics   map[string]int
@@ -156,6 +163,9 @@ func (s *Stats) Merge(o *Stats) {
 	s.SolverUnsat += o.SolverUnsat
 	s.SolverUnknown += o.SolverUnknown
 	s.SolverTime += o.SolverTime
+	s.AltCalls += o.AltCalls
+	s.AltDecided += o.AltDecided
+	s.CutUnknown += o.CutUnknown
 	for k, v := range o.Asserts {
 		a := s.Asserts[k]
 		if a == nil {
@@ -195,7 +205,12 @@ func NewEngine(p *Program, solverKind string, timeoutMs int) *Engine {
 	return e
 }
 
-func (e *Engine) Close() { e.solver.Close() }
+func (e *Engine) Close() {
+	e.solver.Close()
+	if e.alt != nil {
+		e.alt.Close()
+	}
+}
 
 func (e *Engine) resetPath(prefix []Decision) {
 	e.pc = nil
@@ -238,6 +253,8 @@ func (e *Engine) resetPath(prefix []Decision) {
 	e.unwinding, e.panicWhere = false, ""
 	e.Outputs = nil
 	e.fbCache = nil
+	e.unwindViolation = ""
+	e.MaxForks = 100000
 	// fresh term table per path keeps memory bounded; variable names are
 	// deterministic per path so solver declarations can be reused.
 	e.tt = NewTermTable()
@@ -251,7 +268,27 @@ func (e *Engine) check(extra *Term, wantModel bool) (string, Model) {
 		as = as[:len(as)-1]
 	}
 	t0 := time.Now()
+	full := e.solver.TimeoutM
+	quick := 1500
+	if quick > full {
+		quick = full
+	}
+	e.solver.TimeoutM = quick
 	res, m := e.solver.Check(as, wantModel)
+	e.solver.TimeoutM = full
+	if res != "sat" && res != "unsat" {
+		// portfolio: cvc5 with bit-vectors as integers, then z3 with the full timeout
+		if e.alt == nil {
+			e.alt = NewSolver("cvc5-int", 3000)
+		}
+		res, m = e.alt.Check(as, wantModel)
+		e.Stats.AltCalls++
+		if res == "sat" || res == "unsat" {
+			e.Stats.AltDecided++
+		} else {
+			res, m = e.solver.Check(as, wantModel)
+		}
+	}
 	if d := time.Since(t0); d > 2*time.Second && os.Getenv("SYMGO_SLOW") != "" {
 		x := ""
 		if extra != nil {
@@ -261,6 +298,18 @@ func (e *Engine) check(extra *Term, wantModel bool) (string, Model) {
 			}
 		}
 		fmt.Fprintf(os.Stderr, "SLOW %.1fs %s %s pc=%d extra=%s\n", d.Seconds(), res, e.harness, len(e.pc), x)
+		if dir := os.Getenv("SYMGO_DUMP"); dir != "" {
+			var sb strings.Builder
+			for _, v := range Vars(as...) {
+				fmt.Fprintf(&sb, "(declare-const %s %s)\n", v.Name, v.S.SMT())
+			}
+			for _, a := range as {
+				fmt.Fprintf(&sb, "(assert %s)\n", a.SMT())
+			}
+			sb.WriteString("(check-sat)\n")
+			dumpN++
+			os.WriteFile(fmt.Sprintf("%s/q%d-%s.smt2", dir, dumpN, res), []byte(sb.String()), 0o644)
+		}
 	}
 	e.Stats.SolverTime += time.Since(t0)
 	e.Stats.SolverCalls++
@@ -457,11 +506,18 @@ func (e *Engine) fork(c *Term) bool {
 	if fOK == "" {
 		fOK, fM = e.check(nc, true)
 	}
-	tFeas := tOK != "unsat"
-	fFeas := fOK != "unsat"
-	if (tOK != "sat" && tOK != "unsat") || (fOK != "sat" && fOK != "unsat") {
-		e.note("solver-unknown at branch")
-		e.cutUnknown = true
+	// A side whose feasibility the solvers could not decide is not explored:
+	// the path is cut there and counted (reduced claim, never a pass and
+	// never an alarm).
+	tFeas := tOK == "sat"
+	fFeas := fOK == "sat"
+	if tOK != "sat" && tOK != "unsat" {
+		e.Stats.CutUnknown++
+		e.note("solver-unknown at branch (true side cut)")
+	}
+	if fOK != "sat" && fOK != "unsat" {
+		e.Stats.CutUnknown++
+		e.note("solver-unknown at branch (false side cut)")
 	}
 	switch {
 	case tFeas && fFeas:
@@ -481,6 +537,9 @@ func (e *Engine) fork(c *Term) bool {
 		e.pos++
 		_ = fM
 		return false
+	}
+	if (tOK != "sat" && tOK != "unsat") || (fOK != "sat" && fOK != "unsat") {
+		panic(pathAbort{"unknown", "branch feasibility undecided by the solvers"})
 	}
 	panic(pathAbort{"assume", "infeasible path"})
 }
@@ -807,6 +866,12 @@ func (e *Engine) RunPath(fn *ssa.Function, prefix []Decision) (res PathResult, a
 		e.drain()
 	}()
 	e.killAll()
+	if res.Status == "unwound" && e.unwindViolation != "" {
+		a := e.site(e.unwindViolation)
+		a.Reached++
+		a.Violated++
+		e.recordViolation(e.unwindViolation, res.Msg, nil)
+	}
 	if res.Status == "crash" {
 		// an uncaught panic on the harness goroutine is the host-crash event
 		a := e.site("no-host-crash")
